@@ -41,11 +41,12 @@ EXC = {c.__name__: c for c in (EA, EAB, EABC, EX, EMI, KeyError, LookupError,
 
 
 class Event:
-    __slots__ = ('site', 'ordinal', 'data', 'level', 'md', 'fired')
+    __slots__ = ('site', 'ordinal', 'data', 'level', 'md', 'fired', 'ans',
+                 'note')
 
     def __init__(self, site, ordinal, md):
         self.site, self.ordinal, self.md = site, ordinal, md
-        self.fired = None
+        self.fired = self.ans = self.note = None
         if md is not None:
             self.data = list(md._data)   # keeps the entries alive
             self.level = md.level
@@ -65,6 +66,7 @@ class RunEnv:
         self.sites = {}
         self.defaults = defaults or {}
         self.extra_names = {}
+        self.shift = 0      # rotates 'rot' answers: differs per execution
 
     # -- registry -------------------------------------------------------
     def site(self, name):
@@ -90,7 +92,8 @@ class RunEnv:
             ev.fired = f
             self.fired.append((name, k, f))
             self.raise_fault(f, name, k)
-        return self.answer(name, k)
+        ev.ans = self.answer(name, k)
+        return ev.ans
 
     def raise_fault(self, f, name, k):
         kind = f['kind']
@@ -117,6 +120,9 @@ class RunEnv:
             ev.fired = {'kind': 'raise', 'exc': r['raise'], 'scripted': 1}
             self.fired.append((name, k, ev.fired))
             raise EXC[r['raise']](r.get('msg', 'scripted@%s#%d' % (name, k)))
+        if 'rot' in r:                   # differs per call and per execution
+            return self.materialise(
+                r['rot'][(k - 1 + self.shift) % len(r['rot'])], name, k)
         if 'tok' in r:                   # volatile token: differs per call
             return '%s#%d' % (r['tok'], k)
         if 'v' in r:
@@ -378,8 +384,14 @@ def node_src(n):
             body_src(n['body']), body_src(n['finally']))
     if k == 'raise':
         t = n['type']
-        a = t['name'] if 'name' in t else 'expr="_.getitem(\'%s\', 0)"' \
-            % t['expr'] if 'expr' in t else 'type="%s"' % t['type']
+        if 'name' in t:
+            a = t['name']
+        elif 'site' in t:
+            a = 'expr="_[\'%s\']"' % t['site']
+        elif 'expr' in t:
+            a = 'expr="_.getitem(\'%s\', 0)"' % t['expr']
+        else:
+            a = 'type="%s"' % t['type']
         return '<dtml-raise %s>%s</dtml-raise>' % (a, body_src(n['body']))
     if k == 'return':
         return '<dtml-return %s>' % ref(n['val'])
@@ -458,6 +470,8 @@ def all_sites(b, acc=None):
                     acc.append(v)
         if n['k'] == 'raise' and 'expr' in n['type']:
             acc.append(n['type']['expr'])
+        if n['k'] == 'raise' and 'site' in n['type']:
+            acc.append(n['type']['site'])
         for sub, _ in child_bodies(n):
             all_sites(sub, acc)
     return acc
